@@ -22,6 +22,29 @@ GROW = ("Vec::resize", "Vec::push", "Vec::extend_from_slice", "Vec::reserve", "V
 USIZE_MAX = (1 << 64) - 1
 
 
+def _option_default(b, local, use_bb):
+    """`local` is Some(v) -> v, None -> usize::MAX of one Option<usize> argument of b (gated evaluation under both variants)."""
+    from engine.flow import PosTerms
+    pt = PosTerms(b)
+    opts = [i for i in range(1, b.arg_count + 1) if b.locals[i].ty.k == "adt" and b.locals[i].ty.name == "std::option::Option"]
+    if len(opts) != 1:
+        return False
+    try:
+        for some, v in ((1, 0), (1, 12345), (1, USIZE_MAX), (0, None)):
+            def lf(q, some=some, v=v):
+                if q[0] == "discr" and pat.has_arg(q) and flow.term_has(q, lambda z: z[0] == "arg" and z[1] == opts[0]):
+                    return some
+                if q[0] in ("field", "as") and flow.term_has(q, lambda z: z[0] == "arg" and z[1] == opts[0]) and some:
+                    return v
+                raise pat.NotEvaluable(q)
+            got = pat.eval_gated(b, pt, local, use_bb, lf)
+            if got != (v if some else USIZE_MAX):
+                return False
+    except (pat.NotEvaluable, pat.Overflow):
+        return False
+    return True
+
+
 def rule_plumbing(facts):
     r = report.RuleResult("C10.R1", "the window's limit is the caller's Options.memlimit, unmodified")
     n = 0
@@ -61,6 +84,9 @@ def rule_plumbing(facts):
                                         and not pat.has_op(t2, ("Add", "Sub", "Mul", "Shl", "Shr", "BitAnd")) \
                                         and not flow.term_has(t2, lambda q: q[0] == "cast"):
                                     okk = True
+                                elif s.rv.ops[fi].place is not None and not s.rv.ops[fi].place.proj:
+                                    # any other spelling (`match`, `if let`): the stored value as a function of the Option argument
+                                    okk = _option_default(b2, s.rv.ops[fi].place.local, blk2.idx)
                 if okk:
                     r.ok("provenance", {"fn": fn, "limit": "self.memlimit = memlimit.unwrap_or(usize::MAX)"})
                 else:
@@ -71,6 +97,69 @@ def rule_plumbing(facts):
     r.sites = n
     r.need("two constructions of the circular window (one-shot and streaming)", n >= 2)
     return r
+
+
+_EG = {}
+
+
+def growth_by_evaluation(b):
+    """The growth discipline of a window method with one index argument, decided by walking its body under valuations of
+    (bytes buffered L, index i, limit m): the buffer grows only to a length n <= m; a write that needs no growth or fits the
+    limit is never refused; one that needs growth beyond the limit ends in Err without growing.  None if it holds, else the
+    counterexample; "?" when the body cannot be walked."""
+    if b.defk in _EG:
+        return _EG[b.defk]
+    from engine.flow import PosTerms
+    from rules.C02 import explicit_rejections
+    pt = PosTerms(b)
+    tm = Terms(b)
+    grows = [blk for blk in b.calls() if any((flow.callee(blk.term) or "").endswith(g) for g in GROW) and blk.term.args and
+             pat.has_field(tm.of_operand(blk.term.args[0]), "buf")]
+    idxargs = [i for i in range(2, b.arg_count + 1) if b.locals[i].ty.s == "usize"]
+    res = "?"
+    if len(grows) == 1 and len(idxargs) == 1 and (flow.callee(grows[0].term) or "").endswith("Vec::resize"):
+        g = grows[0]
+        errs = {bb for bb, _ in explicit_rejections(b)}
+        oks = {o for o, k in flow.ret_sources(b).items() if k in ("ok", "any", "other")}
+        res = None
+        try:
+            for L in (0, 5):
+                for i in (0, 4, 5, 9):
+                    for m in (0, 5, 6, 10, USIZE_MAX):
+                        def lf(q, L=L, i=i, m=m):
+                            if q[0] == "call" and q[1].endswith("::len") and pat.has_field(q, "buf"):
+                                return L
+                            if q[0] == "arg" and q[1] == idxargs[0]:
+                                return i
+                            if q[0] == "field" and q[1] == "memlimit":
+                                return m
+                            raise pat.NotEvaluable(q)
+                        got = pat.reached_under(b, pt, 0, lf, {g.idx} | errs | oks)
+                        grew = g.idx in got
+                        refused = bool(got & errs) and not (got & oks)
+                        need = L < i + 1
+                        if grew:
+                            n_ = pat.eval_term(pt.at(g.idx, None).of_operand(g.term.args[1]), lf)
+                            if n_ > m:
+                                res = "with %d bytes buffered, index %d and a limit of %d the buffer grows to %d bytes" % (L, i, m, n_)
+                            elif n_ < i + 1:
+                                res = "with %d bytes buffered and index %d the buffer grows to %d bytes only" % (L, i, n_)
+                        if res is None and (not need or i + 1 <= m) and (got & errs):
+                            res = "with %d bytes buffered, index %d and a limit of %d the write can be refused although it fits" % (L, i, m)
+                        if res is None and need and i + 1 > m and (grew or not refused):
+                            res = "with %d bytes buffered, index %d and a limit of %d the write is not refused" % (L, i, m)
+                        if res is None and need and i + 1 <= m and not grew:
+                            res = "with %d bytes buffered, index %d and a limit of %d the buffer does not grow" % (L, i, m)
+                        if res:
+                            break
+                    if res:
+                        break
+                if res:
+                    break
+        except (pat.NotEvaluable, pat.Overflow):
+            res = "?"
+    _EG[b.defk] = res
+    return res
 
 
 def rule_guard(facts):
@@ -131,8 +220,16 @@ def rule_guard(facts):
             if c.dominates(ok_edge, blk.idx) or ok_edge == blk.idx:
                 found = (bb, rej, tested, t)
         if not found:
+            # not one test dominating the growth (e.g. `if must_grow && over { Err }  if must_grow { resize }`): decide by evaluation
+            ev = growth_by_evaluation(b)
+            if ev is None:
+                r.ok("evaluation", {"fn": fn, "growth": "only to index + 1 <= memlimit; refused exactly when growth beyond the limit is needed"})
+                for (bb, t, z, nz) in gs:
+                    if pat.has_field(t, "memlimit"):
+                        guard_blocks.add((b.defk, bb))
+                continue
             r.bad("%s|unguarded-growth:%s" % (fn, nm.split("::")[-1]), "the window buffer grows (%s) without the "
-                  "`new_len <= memlimit` test" % nm, where)
+                  "`new_len <= memlimit` test%s" % (nm, "" if ev == "?" else ": " + ev), where)
             continue
         bb, rej, tested, t = found
         guard_blocks.add((b.defk, bb))
@@ -163,12 +260,13 @@ def rule_guard(facts):
                        pat.where(b, bb))
     # the guard is only evaluated when the buffer must grow
     for b, blk, tm, gs, c in grow_sites[:1]:
-        need = None
+        needs = []
         for (bb, t, z, nz) in gs:
             s = pat.cmp_sides(t)
             if s and s[0] in ("Lt", "Gt", "Le", "Ge") and pat.has_call(t, "Vec::len") and not pat.has_field(t, "memlimit"):
-                need = (bb, t)
-        if need and all(c.dominates(need[0], gb) for (d, gb) in guard_blocks if d == b.defk):
+                needs.append((bb, t))
+        if any(all(c.dominates(nb, gb) for (d, gb) in guard_blocks if d == b.defk) for nb, _ in needs) or \
+                (needs and growth_by_evaluation(b) is None):
             r3.ok("dominance", {"limit test": "only when buf.len() < new_len"})
         else:
             r3.bad("%s|guard-always" % short(b.name), "the limit is tested even when the buffer does not need to grow: "
@@ -312,6 +410,8 @@ def rule_limit_rejections(facts):
             n += 1
             # the growth test: the same test's other edge leads to the growth of the buffer
             bad = [(gb, t) for (gb, t) in lim if not any(c.dominates(gb, g) for g in grows)]
+            if bad and grows and growth_by_evaluation(b) is None:
+                bad = []      # the function's refusals are exactly "growth beyond the limit is needed" (decided by evaluation)
             if not bad:
                 r.ok("growth-test", {"fn": short(b.name)})
             else:
